@@ -61,6 +61,10 @@ def boundaries(bases, wd):
         counts[i] = min(n, 400)
         # clock steps: at most one per `K idle` line (the last ones fire nothing)
         advs[i] = min(sum(1 for l in lines if l.startswith("K idle")), 400)
+        # the model marks every boundary it passes (`M s<k>` / `M a<k>`): with marks the counts are exact
+        # (run()'s n also counts the timers fired, so it overestimates the number of handler boundaries)
+        ms = sum(1 for l in lines if l.startswith("M s")); ma = sum(1 for l in lines if l.startswith("M a"))
+        if ms or ma: counts[i] = min(ms, 400); advs[i] = min(ma, 400)
         IDLE[i] = idle_sets(lines)
     return counts, advs
 
@@ -85,7 +89,7 @@ def nontrivial(impl):
     return sum(1 for l in impl if l.startswith("H ")) >= 2 and any(re.match(r"C [sa]\d+ ", l) for l in impl)
 
 CHECK = ScenarioCheck("C04", ["SimVerif.Props.C04"], "kernel", gen, spec_c04, nontrivial,
-    "base scenarios starting every kind of asynchronous operation (timer wait; TCP connect/read/write/wait-for-read; accept in its three forms; UDP receive / wait-for-read / wait-for-write; resolve) on lossy and loss-free routes; for every event boundary k of a base - after each handler, and after each clock step before the first expired timer's completion runs - (all k in the thorough tier, a sample in the quick tier) one run per intervention (cancel, close, close() without argument, destroy, re-arm, a new operation of the same kind) on a participating object, to quiescence; non-trivial = >= 2 completions and an intervention executed; distinct = distinct implementation trace",
+    "base scenarios starting every kind of asynchronous operation (timer wait; TCP connect/read/write/wait-for-read; accept in its three forms; UDP receive with and without sender endpoint / wait-for-read / wait-for-write; resolve) on lossy and loss-free routes; for every event boundary k of a base - after each handler, and after each clock step before the first expired timer's completion runs - (all k in the thorough tier, a sample in the quick tier; every k of a stated range for the directed bases bd_*, in both tiers) one run per intervention (cancel, close, close() without argument, destroy, re-arm, a new operation of the same kind) on a participating object, to quiescence; the peer socket of an accept is destroyed / moved only at boundaries where that accept is no longer pending; monitor: never inline, at most once, exactly once after an intervention, none discarded, and ec=operation_aborted wherever the trace shows the operation cannot have completed before the intervention (timer before expiry, lookup before its latency, accept without any connect, UDP receive without any datagram, TCP read on an established connection nobody wrote to); non-trivial = >= 2 completions and an intervention executed; distinct = distinct implementation trace",
     TRUSTED, ASSUME, spec_scn=True)
 
 def run(tier, seed, replay):
